@@ -226,14 +226,15 @@ PROPS.update({
         claim='Proof that the only order-dependent library call whose result can reach the output (HashMap key enumeration at the three GET sites) is '
               'canonicalised before use (for ANY enumeration order the chosen-from vector equals the unique ascending sequence of the key set), plus a '
               'mechanical scan showing no other source of nondeterminism (OS randomness, clocks, thread/process identity, mutable globals, address-dependent '
-              'values, hash-order iteration) occurs in the library outside whitelisted, justified sites.',
+              'values, allocation capacities, hash-order iteration) occurs in the library outside whitelisted, justified sites.',
         note=_NOTE + ' The thread/process/schedule quantifier is discharged by a frame argument (a Generator owns all its state; the library has no shared mutable '
              'state: scan), not by exploration. main.rs batch mode under rayon is outside every contract (by inspection: one fresh Generator per index).',
         assumptions=_CORE_ASSUME + ['exec functions verified by Verus are deterministic functions of their arguments and of the results of the external functions they call',
                                     'rayon batch mode in main.rs is not covered (outside any function boundary a contract can be put on)']),
     'C08': dict(
-        title='Generator reuse: each call independent of earlier calls', verus=['core'], level='proof',
-        technique='Verus contracts: reset() postcondition and a generate_internal postcondition that mentions the old state only through its configuration',
+        title='Generator reuse: each call independent of earlier calls', verus=['core'], scans=['purity'], level='proof',
+        technique='Verus contracts: reset() postcondition and a generate_internal postcondition that mentions the old state only through its configuration; '
+                  'mechanical purity scan (no value that survives reset() outside the modelled state - allocation capacity, addresses, globals - is read by the library)',
         claim='Proof that the returned bytes are header + body + tail + STOP built from a freshly reset state: nothing of the previous output, stack, memo or PROTO flag survives into the result.',
         note=_NOTE + ' Equality of two runs additionally needs determinism of the callees (C07). generate()/generate_from_arbitrary() wrappers by inspection.',
         assumptions=_CORE_ASSUME),
@@ -245,11 +246,16 @@ PROPS.update({
         note=_NOTE + ' Not covered: RefCell borrow-flag panics, allocation failure, native stack depth of recursive Drop, string mutators, text emitters (format!).',
         assumptions=_CORE_ASSUME + ['RefCell borrow flags, allocation failure and native stack overflow of recursive drop are not modelled']),
     'C10': dict(
-        title='EXT and buffer opcodes only when enabled', verus=['core', 'mutv'], kani_thorough=U8_THOROUGH, level='proof',
-        technique='Verus contracts: can_emit flag clauses, emitted opcode in the chosen family (flags_ok), collapse-phase opcode set, generate_internal trace clause; Kani: type-confusion replacement is never EXT/buffer',
+        title='EXT and buffer opcodes only when enabled', verus=['core', 'mutv'], kani_thorough=U8_THOROUGH, level='proof', scans=['cliflags'],
+        technique='Verus contracts: can_emit flag clauses, emitted opcode in the chosen family (flags_ok), collapse-phase opcode set, generate_internal trace clause; '
+                  'Generator::default/new and every with_* builder under a whole-frame contract (the two flags are false after new() and change only through their own builder); '
+                  'Kani: type-confusion replacement is never EXT/buffer',
         claim='Proof that no opcode recorded in the trace (safe mode) and no chunk appended in any mode (incl. type-confusion replacements) is EXT*/NEXT_BUFFER/READONLY_BUFFER '
-              'unless the corresponding flag is set.',
-        note=_NOTE, assumptions=_CORE_ASSUME),
+              'unless the corresponding flag is set, and that a flag is set only by new()+with_ext_opcodes(true) / with_buffer_opcodes(true) (or a direct field write by the caller).',
+        note=_NOTE + ' The command-line forwarding of --allow-ext/--allow-buffer in src/main.rs (clap, rayon, filesystem) is outside the verifier; it is cross-checked BOUNDED '
+                     '(real binary, 4 flag combinations x protocols 2..5 x seeds, single-file and batch mode) and listed under bounded, not under obligations.',
+        assumptions=_CORE_ASSUME + ['src/main.rs flag forwarding: bounded cross-check only (xcheck.cli_flags)',
+                                    'compiler-derived Default impls of State and Stack (templates require the #[derive(Default)] to be present)']),
     'C11': dict(
         title='Opcode-count knobs bound the program size', verus=['core', 'mutv'], level='proof',
         technique='Verus contract on generate_internal: loop runs exactly T times, one opcode per iteration, tail <= 2T+1',
